@@ -167,6 +167,7 @@ class Interp:
         self.invalid = None
         self.injected_calls = []
         self.build_no = 0
+        self.crash_end = False
         self.stragglers = {}         # owner/tag -> list of call records
         self.straggler_hints = {}    # owner/tag -> {stmt index: late?}
         self.ret_seq = {}            # inv -> scheduler seq when its API call
@@ -284,8 +285,15 @@ class Interp:
         try:
             self.run_body(fr, body)
             self.crash_point()
+            if self.crash_end:
+                e = CrashError('crash after the last statement of the root')
+                self.crashed = e
+                raise e
         finally:
             self.done_order.append('root')
+            # the fence of the root builder: the root function has returned
+            # or raised (the library closes it before any further yield point)
+            self.ret_seq['root'] = self.seq()
         if fr.has_ret:
             return fr.retval
         return fr.obs
@@ -425,6 +433,26 @@ class Interp:
             self.straggle(fr, st)
         elif op == 'probe':
             self.probe(fr, st)
+        elif op == 'bfmany':
+            # many outputs from one statement (wide builds: > 128 backups)
+            _, prefix, n, fid, cmp = st[:5]
+            func_name = self.funcs[fid]['name']
+            res = []
+            for k in range(n):
+                path = sb.p('%s%03d' % (prefix, k))
+                func = self.make_func(fid)
+                try:
+                    if self.mode == 'real':
+                        r = B.build_file(path, func_name, func, [k], {}, cmp,
+                                         None)
+                    else:
+                        r = B.build_file(path, func_name, func, [k], {}, cmp)
+                    res.append(digest(r, 4))
+                except CrashError:
+                    raise
+                except Exception as e:
+                    res.append('!' + type(e).__name__)
+            fr.obs.append(['bfmany', prefix, digest(res)])
         elif op == 'nop':
             pass
         else:
